@@ -459,6 +459,11 @@ not within 1e-6·|x| of a pole and the true value is a finite normal f64; distin
     ps::sweep(ctx, &[&DIGAMMA_HARMONIC], 10_000, &|i| ((i + 1) as f64, 0.0));
     ctx.exhaustive.push("digamma(n) = H(n-1) − γ for every integer n in 1..=10000".into());
 
+    // beta on the complete quarter-integer grid (whole-number and half-integer arguments are where closed forms
+    // through factorials / binomial coefficients would be substituted)
+    ps::sweep(ctx, &[&BETA_VALUE, &BETA_SYMMETRY], 319 * 319, &|i| (((i / 319) + 1) as f64 / 4.0, ((i % 319) + 1) as f64 / 4.0));
+    ctx.exhaustive.push("beta value and symmetry at every (a, b) with 4a, 4b integers in 1..=319 (all whole-number and half-integer pairs below 80)".into());
+
     // stratified sweeps (quick and thorough)
     let n = ctx.scale(4_000_000, 40_000_000);
     ps::sweep(ctx, &[&GAMMA_POSITIVE, &GAMMA_REFLECTION, &GAMMA_RECURRENCE], n, &|i| (gamma_arg(base, i), 0.0));
